@@ -558,6 +558,20 @@ static Janet v_wait_exec(int32_t argc, Janet *argv) {
     return janet_wrap_false();
 }
 
+static Janet v_tq_dump(int32_t argc, Janet *argv) {
+    (void) argv;
+    janet_fixarity(argc, 0);
+    JanetArray *a = janet_array((int32_t) janet_vm.tq_count);
+    int64_t now_ms = __atomic_load_n(&vnow_ns, __ATOMIC_SEQ_CST) / 1000000;
+    for (size_t i = 0; i < janet_vm.tq_count; i++) {
+        JanetTimeout *t = &janet_vm.tq[i];
+        Janet e[4] = { janet_wrap_number((double)((int64_t) t->when - now_ms)), janet_wrap_boolean(t->curr_fiber != NULL),
+                       janet_wrap_boolean(t->is_error), janet_wrap_boolean(t->fiber && t->fiber->sched_id == t->sched_id) };
+        janet_array_push(a, janet_wrap_tuple(janet_tuple_n(e, 4)));
+    }
+    return janet_wrap_array(a);
+}
+
 static Janet v_live_threads(int32_t argc, Janet *argv) {
     (void) argv;
     janet_fixarity(argc, 0);
@@ -587,6 +601,7 @@ static const JanetReg verif_cfuns[] = {
     {"verif/real-sleep", v_real_sleep, "(verif/real-sleep ms)\n\nSleep in real time."},
     {"verif/pid-running", v_pid_running, "(verif/pid-running pid)"},
     {"verif/live-threads", v_live_threads, "(verif/live-threads)"},
+    {"verif/tq-dump", v_tq_dump, "(verif/tq-dump)\n\nThe timer queue: [ms-from-now deadline? is-error live?] per entry."},
     {"verif/wait-exec", v_wait_exec, "(verif/wait-exec pid)\n\nWait (real time, at most 2 s) until the child `pid` has finished its exec: "
      "posix_spawn returns as soon as the child has a new address space, a moment before the kernel closes the child's "
      "close-on-exec copies of this process's descriptors. Returns true when the exec was seen to be complete."},
